@@ -20,6 +20,7 @@
 -/
 import JsonC.Lemmas.TokenerStep
 import JsonC.Lemmas.TranslatedTok
+import JsonC.Lemmas.TranslatedReset
 import JsonC.Lemmas.TokenerScrub2
 import JsonC.Lemmas.TokenerTable
 import JsonC.Generated.Structure
